@@ -12,6 +12,36 @@ const maxInlineDepth = 6
 
 // callCommon handles a call (or deferred call at RunDefers). res is the SSA value receiving the result (may be nil).
 func (vc *FnVC) callCommon(fr *frame, st *state, c *ssa.CallCommon, res ssa.Value, ins ssa.Instruction, dargs []val, dfn *val) val {
+	if vc.pair == nil {
+		return vc.callCommon0(fr, st, c, res, ins, dargs, dfn)
+	}
+	if _, isB := c.Value.(*ssa.Builtin); isB {
+		return vc.callCommon0(fr, st, c, res, ins, dargs, dfn)
+	}
+	pre := st.clone()
+	vc.lastInlined = false
+	r := vc.callCommon0(fr, st, c, res, ins, dargs, dfn)
+	if vc.lastInlined {
+		vc.lastInlined = false
+		return r
+	}
+	var args []val
+	for _, a := range c.Args {
+		v := fr.get(vc, a)
+		args = append(args, v)
+	}
+	fnTerm := "0"
+	if f := c.StaticCallee(); f != nil {
+		fnTerm = vc.fnID(f)
+	} else if !c.IsInvoke() {
+		fnTerm = fr.get(vc, c.Value).t
+	}
+	site := fmt.Sprintf("%s%p", fr.prefix[1:], ins)
+	vc.pairHook(site, fnTerm, args, pre, st, r)
+	return r
+}
+
+func (vc *FnVC) callCommon0(fr *frame, st *state, c *ssa.CallCommon, res ssa.Value, ins ssa.Instruction, dargs []val, dfn *val) val {
 	S := vc.sorts
 	_ = S
 	var args []val
@@ -254,8 +284,9 @@ func (vc *FnVC) applyContractN(fr *frame, st *state, sp *FuncSpec, key string, n
 		vars[k] = v
 	}
 	tags := vc.safetyTags(fr)
+	light := vc.pair != nil && vc.pair.light
 	for _, cl := range sp.Clauses {
-		if cl.Kind != "requires" {
+		if cl.Kind != "requires" || light {
 			continue
 		}
 		tg := tags
@@ -322,7 +353,8 @@ func (vc *FnVC) applyContractN(fr *frame, st *state, sp *FuncSpec, key string, n
 	}
 	vc.bindResults(vars, res, callee)
 	for _, cl := range sp.Clauses {
-		if cl.Kind != "ensures" && cl.Kind != "ghostensures" {
+		if cl.Kind != "ensures" && cl.Kind != "ghostensures" || light && len(names2) > 0 {
+			// two-run VCs in light mode use only the frame of the callee and its determinism
 			continue
 		}
 		t := vc.evalBool(cfr, st, pre, cl.E, vars)
@@ -493,6 +525,7 @@ func (vc *FnVC) entryMeasure() string {
 
 // inlineCall executes the callee's body in place (transparent function).
 func (vc *FnVC) inlineCall(fr *frame, st *state, callee *ssa.Function, sp *FuncSpec, args []val, bindings []val, resType types.Type) val {
+	defer func() { vc.lastInlined = true }()
 	cfr := newFrame(callee, fr.depth+1, fr.prefix+callee.Name()+"/")
 	cfr.spec = sp
 	cfr.parent = fr
